@@ -68,6 +68,14 @@ def programs(tier, seed):
         if not any(a[0] == "ld" for a in p):
             p = p + (("ld",) + rnd.choice(full)[1:],)
         progs.append(p)
+    # narrow store over a wide one with a store to its upper bytes in between (through the same pointer at another
+    # offset, or through another pointer): the map keeps ONE entry per pointer expression and widens the narrow store
+    for wide, mid, narrow in ((32, 8, 8), (32, 16, 8), (64, 16, 16), (32, 16, 16), (64, 32, 8)):
+        for other in (("p", 1), ("p", 2), ("q", 0), ("q", 1)):
+            if other[1] * 8 + mid > wide and other[0] == "p":
+                continue
+            progs.append((("st", "p", 0, wide, 1), ("st", other[0], other[1], mid, 1), ("st", "p", 0, narrow, 1), ("ld", "p", 0, wide, 1)))
+            progs.append((("st", "p", 0, wide, 1), ("st", other[0], other[1], mid, 1), ("st", "p", 0, narrow, 1)))
     # same-base overlap programs (zone logic): offsets only
     same = accesses(1, [0, 1, 2, 3, -1, 4], SIZES, [1, -1])
     if tier == "quick":
